@@ -234,3 +234,60 @@ func verifHarness_C11_endpoints() {
 	verifAssert(!mcc.CanMakeCalls(), "cannot-make-calls-after-lifetime-ended")
 	verifReach("done")
 }
+
+// verifHarness_C11_stalledOpen: one session's stream open stalls (the peer stopped reading: yamux blocks
+// on its backlog and ignores the dial context) while the channel is dialling it. Session-list updates
+// must still be applied — the dead session's endpoint goes, a new session becomes dialable, CanMakeCalls
+// answers — i.e. nothing in the dial path may sit on the session table while it waits for the session.
+type c11StallSess struct {
+	c11Sess
+	release chan struct{}
+	entered bool
+}
+
+func (s *c11StallSess) Open() (net.Conn, error) {
+	s.entered = true
+	<-s.release
+	return nil, errC11Open
+}
+
+func verifHarness_C11_stalledOpen() {
+	verifConfig("preempt", verifParam("preempt", 0))
+	mcc := &MultiClientConn{lifetime: context.Background(), name: "verif", resolver: manual.NewBuilderWithScheme(scheme)}
+	dial := mcc.getMapDialer()
+	c11AnnounceDial = nil
+	stalled := &c11StallSess{c11Sess: c11Sess{id: "0"}, release: make(chan struct{})}
+	table := map[string]session.ManagedMuxSession{"0": stalled}
+	mcc.OnConnectionListUpdate(table)
+	dialDone := false
+	go func() {
+		_, _ = dial(context.Background(), "0") // the channel connects to endpoint "0"; the open stalls
+		dialDone = true
+	}()
+	verifQuiesce()
+	verifAssert(stalled.entered && !dialDone, "stalled-open:dial-is-waiting-inside-the-session")
+	verifReach("dial-stalled-inside-open")
+	// the session list changes while that dial is stuck
+	switch verifChoose("update-during-stall", 3) {
+	case 0:
+		verifAction("stalled-session-removed")
+		delete(table, "0")
+	case 1:
+		verifAction("second-session-added")
+		table["1"] = &c11Sess{id: "1"}
+	case 2:
+		verifAction("stalled-session-replaced")
+		delete(table, "0")
+		table["1"] = &c11Sess{id: "1"}
+	}
+	mcc.OnConnectionListUpdate(table) // must not wait for the stalled open (a wait shows up as a deadlock)
+	verifReach("update-applied-during-stall")
+	verifAssert(mcc.CanMakeCalls() == (len(table) > 0), "stalled-open:can-make-calls-answers-during-the-stall")
+	if s1, ok := table["1"].(*c11Sess); ok {
+		_, err := dial(context.Background(), "1")
+		verifAssert(err == nil && s1.opens == 1, "stalled-open:new-session-is-dialable-during-the-stall")
+	}
+	close(stalled.release)
+	verifQuiesce()
+	verifAssert(dialDone, "stalled-open:stalled-dial-ends-once-the-session-gives-up")
+}
